@@ -10,6 +10,8 @@
      grant   n            LE Flow Control Credit (n credits) leaves the receiving host
      credit  n            ... and reaches the sending host
      sink    n ok         receiver hands n bytes to its sink; ok = they are the next n bytes of the written stream
+     close   first ok     a Disconnection Request for the channel leaves an endpoint (first = the sender of this
+                          direction sent it; ok = the application on that endpoint had called disconnect())
      quiesce n            nothing is runnable any more; n = number of drain() calls still blocked
 
    Anything else the observers log ("stray": a frame or credit packet on a CID that belongs to no
@@ -33,6 +35,7 @@ Act == \/ Ev.e = "write"   /\ Write(Ev.n)
        \/ Ev.e = "grant"   /\ Grant(Ev.n)
        \/ Ev.e = "credit"  /\ RecvCredits(Ev.n)
        \/ Ev.e = "sink"    /\ Ev.ok /\ Sink(Ev.n)
+       \/ Ev.e = "close"   /\ Close(Ev.ok)
        \/ Ev.e = "quiesce" /\ Ev.n = 0 /\ Quiesce
 
 Step == /\ l <= Len(T)
@@ -57,7 +60,8 @@ Why ==
      have     |-> (Ev.e = "sink") => delivered + Ev.n <= rbytes,
      alldelivered |-> (Ev.e = "quiesce") => AllDelivered,
      drained  |-> (Ev.e = "quiesce") => Ev.n = 0,
-     known    |-> Ev.e \in {"write", "send", "recv", "grant", "credit", "sink", "quiesce"}]
+     asked    |-> (Ev.e = "close") => CloseAsked(Ev.ok),
+     known    |-> Ev.e \in {"write", "send", "recv", "grant", "credit", "sink", "close", "quiesce"}]
 
 Stuck == /\ l <= Len(T)
          /\ ~ENABLED Step
